@@ -33,6 +33,18 @@ CLAIMED = {
  "C17": ("translation_validation", "constant evaluation and cross-check of registry tables against type constants and boxed writers",
          "Cross-checks by constant evaluation, per corpus: meta registration literals ↔ factory registrations ↔ TLName()/TLTag() constants of the constructed Go type ↔ first word written by WriteTL1Boxed; function-ness ⇔ result transcoders exist; HaTL1/HaTL2 ⇔ readers are real, not stubs; names and non-zero tags pairwise distinct; every item has a factory and vice versa.",
          "programs = corpora; agreement with the schema text is not decided (schema seen only through the generator)", "DESIGN.md §3 C17"),
+ "C23": ("other", "call-graph non-interference between the canonical and the ordinary printer families + dominance rules on tag assignment",
+         "Decides that crc32() is ChecksumIEEE over canonicalForm(), that Construct.ID is computed only when no explicit tag was parsed and explicit tags are stored verbatim (base 16), and that nothing reachable from canonicalForm reads layout/comment fields or as-written arithmetic or crosses into the ordinary printer family. One genuine deviation is a known finding (bracket fields). The CRC value and token-level layout of the canonical text are not decided.",
+         "trusts go/types and hash/crc32", "DESIGN.md §3 C23"),
+ "C24": ("other", "must-pass-through and loop-totality rules on both tag checks",
+         "Decides that every success return of Kernel.Compile and of the legacy generator passes an error-checked checkTagCollisions, that both checks inspect every combinator (no early success/break), reject tag 0 for TL1, reject a lookup hit and insert the tag afterwards, and that the TL2 parser rejects explicit magic 0. Implicit TL2 magics are out of scope.",
+         "trusts go/types", "DESIGN.md §3 C24"),
+ "C28": ("other", "loop-totality, comparer-coverage and rejection-presence rules on the linter source (necessary conditions only)",
+         "Decides necessary conditions of linter soundness: checking loops are total over the old schema, the type comparer reads every wire-relevant part of a type reference, each documented unsafe edit has its rejection. It does NOT decide soundness itself (acceptance ⇒ identical encodings for all values), which depends on the value-level bit-usage analysis.",
+         "clause only; trusts go/types", "DESIGN.md §3 C28"),
+ "C30": ("other", "rejection-presence table + loop-totality (position independence) + comparer coverage on the linter source",
+         "Decides that each documented unsafe edit resolves to an error return under its characteristic guard, that no checking loop can be left early (so position of the edit does not matter) and that the type comparer covers name, bare marker, arguments and arithmetic values. Whether each guard is semantically right for all schema pairs is not decided.",
+         "trusts go/types and the transcription of the documented unsafe edits", "DESIGN.md §3 C30"),
  "C33": ("other", "decision-table extraction from basictl source compared with the documented layout and across sibling functions",
          "Decides the layout tables of TL1 strings (arm guards, header sizes, length byte positions/shifts, padding bases, non-minimal and non-zero-padding rejections, residue (-p) mod 4 on both sides), TL2 varlen sizes in Write/Put/Calculate/Parse, fixed-width pairs (little-endian, reader consumes what writer appends), bit vectors (8 per byte, LSB first, partial tail) and that every truncation guard returns io.ErrUnexpectedEOF, for pkg/basictl and the two linked copies. Does not execute a round trip.",
          "trusts the frozen documented tables, encoding/binary, go/types constant folding", "DESIGN.md §3 C33"),
